@@ -9,10 +9,23 @@ From Coq Require Import String List NArith Arith Bool.
 Import ListNotations.
 Require Import Verif.Imports.Rules Verif.Imports.Collect Verif.Imports.CollectProps Verif.Imports.FlattenProps
                Verif.Imports.TermProps Verif.Imports.Index Verif.Imports.IndexProps Verif.Imports.Extract Verif.Imports.ExtractProps
-               Verif.Gen.ImportRules.
+               Verif.Imports.NameTables Verif.Imports.Paths Verif.Imports.PathsProps Verif.Imports.Names Verif.Imports.NamesProps
+               Verif.Imports.History Verif.Imports.HistoryProps Verif.Imports.DepthProps
+               Verif.Imports.Versions Verif.Imports.VersionsProps
+               Verif.Gen.ImportRules Verif.Gen.NameRules.
 
 Lemma rules_current : current_rules = expected_rules.
 Proof. reflexivity. Qed.
+
+(* the statements Names.v / Paths.v / History.v were transliterated from are the ones in the source now: Parser.Set,
+   the writers of Settings, the head of Parse, EnterImport_stmt's name construction, importDir, localReadName,
+   fileNameToIndex WITH its normalisation step (fixes/C05-2), IsRemoteImport / GetRemoteRepoRoot / repoRegexp, the
+   second-claimer branch and the read-to-fan-out part of collectSpecs, the golden-retriever version *)
+Lemma name_rules_current : current_name_rules = expected_name_rules.
+Proof. reflexivity. Qed.
+
+Lemma hrules_current : hrules_of current_name_rules = expected_hrules.
+Proof. rewrite name_rules_current. reflexivity. Qed.
 
 Definition final_cur g root maxd sched := snd (result current_rules g maxd root sched).
 Definition got_cur g root maxd sched f := lookup f (claimed (run current_rules g maxd root sched)) <> None.
@@ -73,8 +86,8 @@ Proof. unfold final_cur. rewrite rules_current. exact closure_depth_refuted. Qed
 
 Theorem index_canonical_current :
   (forall s s', slash_eq s s' -> index_of current_rules s = index_of current_rules s') /\
-  (forall name v, has at_sign name = false -> index_of current_rules (name ++ String at_sign v) = index_of current_rules name) /\
-  (forall s s', has backslash s = false -> has at_sign s = false -> has backslash s' = false -> has at_sign s' = false ->
+  (forall name v, IndexProps.has at_sign name = false -> index_of current_rules (name ++ String at_sign v) = index_of current_rules name) /\
+  (forall s s', IndexProps.has backslash s = false -> IndexProps.has at_sign s = false -> IndexProps.has backslash s' = false -> IndexProps.has at_sign s' = false ->
       index_of current_rules s = index_of current_rules s' -> s = s') /\
   (forall s, index_of current_rules (index_of current_rules s) = index_of current_rules s).
 Proof.
@@ -88,6 +101,56 @@ Theorem extract_layout_current :
       extract current_rules (sec ++ body) = filter (is_import current_rules) sec /\
       (forall l, In l (extract current_rules (sec ++ body)) <-> In l sec /\ is_import current_rules l = true)).
 Proof. rewrite rules_current. split; [exact extract_ignores_layout|exact extract_exact]. Qed.
+
+(* ---------------- round 3: histories, names, the depth limit narrowed ---------------- *)
+Definition spec_outcome_cur (x:settings * graph * idx * list nat) : outcome :=
+  match x with (s, g, root, sched) => result current_rules g (s_maxd s) root sched end.
+
+Theorem parse_depends_on_latest_settings_current ops :
+  run_history current_rules (hrules_of current_name_rules) ops = map spec_outcome_cur (with_latest zero_settings ops).
+Proof. unfold spec_outcome_cur. rewrite hrules_current, rules_current. exact (parse_depends_on_latest_settings ops). Qed.
+
+Theorem same_text_both_included_current files resource sched i j fi fj raw l :
+  let g := ngraph files resource in let root := root_idx files resource in
+  quiescent (run current_rules g 0 root sched) = true -> final_cur g root 0 sched = Some l ->
+  reach g root i -> reach g root j ->
+  nth_error files (N.to_nat i) = Some fi -> nth_error files (N.to_nat j) = Some fj ->
+  In raw (nf_imports fi) -> In raw (nf_imports fj) ->
+  In (resolve files resource i raw) l /\ In (resolve files resource j raw) l /\
+  (In (nindex (import_name (base_of files resource i) [] raw)) (map nf_key files) ->
+   nindex (import_name (base_of files resource i) [] raw) <> nindex (import_name (base_of files resource j) [] raw) ->
+   resolve files resource i raw <> resolve files resource j raw).
+Proof. cbv zeta. unfold final_cur. rewrite rules_current. exact (same_text_both_included files resource sched i j fi fj raw l). Qed.
+
+Theorem spellings_claimed_once_current files resource maxd sched :
+  let g := ngraph files resource in let root := root_idx files resource in
+  let s := run current_rules g maxd root sched in
+  quiescent s = true -> NoDup (reads s) /\ forall l, final_cur g root maxd sched = Some l -> NoDup l.
+Proof. cbv zeta. unfold final_cur. rewrite rules_current. exact (spellings_claimed_once files resource maxd sched). Qed.
+
+Theorem closure_depth_sure_current g root maxd sched :
+  (forall f, nearer g root maxd f -> sure g root maxd f) ->
+  quiescent (run current_rules g maxd root sched) = true -> 0 < maxd ->
+  exists l, final_cur g root maxd sched = Some l /\ NoDup l /\ (forall f, In f l <-> nearer g root maxd f).
+Proof.
+  unfold final_cur. rewrite rules_current. intros Hs Hq Hp.
+  destruct (closure_depth_sure_result g root maxd Hs sched Hq Hp) as (l & H1 & H2 & H3 & _). exists l. auto.
+Qed.
+
+Theorem closure_depth_sure_independent_current g root maxd s1 s2 :
+  (forall f, nearer g root maxd f -> sure g root maxd f) ->
+  quiescent (run current_rules g maxd root s1) = true -> quiescent (run current_rules g maxd root s2) = true -> 0 < maxd ->
+  final_cur g root maxd s1 = final_cur g root maxd s2.
+Proof. unfold final_cur. rewrite rules_current. intros Hs. exact (closure_depth_sure_independent g root maxd Hs s1 s2). Qed.
+
+Theorem versions_erase_current tg maxd nocheck root roottag sched :
+  t_st (trun current_rules nocheck tg maxd root roottag sched) = run current_rules (erase_graph tg) maxd root sched.
+Proof. rewrite rules_current. apply (trun_erase tg maxd nocheck root roottag sched). Qed.
+
+Theorem consistent_no_error_current tg maxd nocheck tagof root roottag sched :
+  (forall f k t, In (k, t) (tg f) -> same_tag (tagof k) t = true) -> same_tag (tagof root) roottag = true ->
+  t_err (trun current_rules nocheck tg maxd root roottag sched) = false.
+Proof. rewrite rules_current. intros H. exact (consistent_no_error tg maxd nocheck tagof H root roottag sched). Qed.
 
 (* ---------------- non-vacuity of the hypotheses ---------------- *)
 (* a cyclic graph with a diamond and a self-import: 0->1,2,0 ; 1->3,1 ; 2->3,0 ; 3->1,3 *)
